@@ -338,7 +338,7 @@ func nearCanonical(s string) bool {
 func recordRate(section, s, shape string, accepted bool, violation string) {
 	canon, _, _ := refCanonical(s)
 	near := false
-	if !accepted {
+	if !accepted && shape != "fuzz" { // too slow for the fuzzing loop
 		near = nearCanonical(s)
 	}
 	cls := []string{"shape-" + shape}
